@@ -102,6 +102,36 @@ func clMergeHeapReset(c *Ctx) {
 	if n < 2 {
 		undecidedf("MergeIterator: SeekFirst/Seek do not collect cursors into mit.h")
 	}
+	// every input cursor is repositioned on every (re)positioning, unconditionally
+	for _, e := range []struct{ meth, pos string }{{"SeekFirst", "SeekFirst"}, {"Seek", "Seek"}} {
+		fn := p.Func("skiplist", "MergeIterator", e.meth)
+		fi := p.Info(fn)
+		pos := p.Func("skiplist", "Iterator", e.pos)
+		sites := p.CallSites(fn, pos)
+		ok := len(sites) >= 1
+		for _, s := range sites {
+			h := loopHeaderOf(s.Block())
+			if h == nil {
+				ok = false
+				continue
+			}
+			// from the loop body entry, the back edge cannot be reached without passing the call
+			var body *ssa.BasicBlock
+			for _, sc := range h.Succs {
+				if sc == s.Block() || fi.PathFromBlock(sc, func(x ssa.Instruction) bool { return x == s }, func(x ssa.Instruction) bool { return x.Block() == h }) != nil {
+					body = sc
+				}
+			}
+			if body == nil || fi.PathFromBlock(body, func(x ssa.Instruction) bool { return x.Block() == h }, func(x ssa.Instruction) bool { return x == s }) != nil {
+				ok = false
+			}
+		}
+		var at ssa.Instruction
+		if len(sites) > 0 {
+			at = sites[0]
+		}
+		c.Check(ok, fn, at, "every input cursor is repositioned, unconditionally", "some input lists are not repositioned (e.g. short-circuited once one input reported an exact match): their items are missing from the merged stream or arrive from a stale position")
+	}
 }
 
 // C18.b pop / advance / re-push pairing in MergeIterator.Next
